@@ -140,6 +140,11 @@ func (e *Encoder) Reset(viewbox ivg.ViewBox, palette [64]color.RGBA) {
 			if enc1 && !ivg.Is1(c) {
 				enc1 = false
 			}
+			// Is1 also holds for translucent colors such as 40:40:40:40 that
+			// have no 1 byte encoding.
+			if _, ok := ivg.RGBAColor(c).Encode1(); enc1 && !ok {
+				enc1 = false
+			}
 			if enc2 && !ivg.Is2(c) {
 				enc2 = false
 			}
